@@ -130,6 +130,12 @@ fn report(c: &C13Case) -> CaseReport {
                 if s.fault_in_writeback && s.flush_ok_after_writeback_fault {
                     rep.nontrivial_items.push(case_hash ^ (k + 1).wrapping_mul(0x9E37_79B9_7F4A_7C15));
                 }
+                for pr in s.reopen_problems.iter() {
+                    let c = format!("after_flush_ok_raw_image_unreadable:{}", pr);
+                    if !rep.classes.iter().any(|x| x == &c) {
+                        rep.classes.push(c);
+                    }
+                }
                 if s.fault_in_drop && !rep.classes.iter().any(|x| x == "fault_in_drop_exempt") {
                     rep.classes.push("fault_in_drop_exempt".into());
                 }
